@@ -404,6 +404,20 @@ fn gen_case(rng: &mut Rng, accepted: &[RegCase], u: &[MVer], idx: usize, pol: &T
         3 if exotic => {
             ep.range = MRange::Until(MVer::min());
         }
+        6 | 7 => {
+            // bounds that differ in build metadata only: equal in precedence, so this is
+            // the one-version range holding v (or, for from/until, the same bound)
+            let v = rng.pick(u).clone();
+            if !v.has_build() {
+                let a = MVer::v(&format!("{}+build.{}", v.text, 1 + rng.below(3)));
+                let b = MVer::v(&format!("{}+build.{}", v.text, 5 + rng.below(3)));
+                ep.range = match rng.below(4) {
+                    0 => MRange::From(a),
+                    1 => MRange::Until(b),
+                    _ => MRange::FromUntil(a, b),
+                };
+            }
+        }
         4 | 5 => {
             // trailing wildcard reusing the name of the (only) single-segment variable
             let singles: Vec<String> = ep.segs.iter().filter_map(|s| if let TSeg::Var(v) = s { Some(v.clone()) } else { None }).collect();
